@@ -349,15 +349,17 @@ class Run:
     """One real process under the deterministic loop. `do(op)` performs an environment op, `tick()` runs one callback;
     both append to .ops / .obs (the lines exchanged with the model) and to the raw records the monitors read."""
 
-    def __init__(self, prog, status0=None, plan=None, process=None, loop=None):
+    def __init__(self, prog, status0=None, plan=None, process=None, loop=None, loop_mode=None):
         """`process` / `loop`: adopt an existing instance (one loaded from a Bundle in `loop`) instead of creating one"""
         logging.disable(logging.CRITICAL)
         self.prog = prog
         self.status0 = status0
         self.loop = loop if loop is not None else detloop.DetLoop()
         # for the runs that start without a status message the process's loop is NOT the thread's current one
-        self.foreign_loop = status0 is None
-        detloop.use_loop(self.loop, foreign=self.foreign_loop)
+        # (`loop_mode`: 'own' | 'foreign' | 'none' = the thread has no current loop at all)
+        self.loop_mode = loop_mode or ('foreign' if status0 is None else 'own')
+        self.foreign_loop = self.loop_mode != 'own'
+        detloop.use_loop(self.loop, foreign={'own': False, 'foreign': True, 'none': 'none'}[self.loop_mode])
         self.loop_errs = []
         def on_loop_error(_loop, context):
             # an unretrieved exception on an abandoned future (reported by the garbage collector) is not an exception
@@ -674,8 +676,16 @@ def n_positions(prog):
     return n + 2
 
 
-def run_schedule(prog, schedule, max_cb=60, status0=None, plan=None):
-    r = Run(prog, status0=status0, plan=plan)
+def loop_mode_for(sched):
+    """which loop is the thread's current one while the process lives on its own: for the schedules without a status message
+    alternately another loop and none at all"""
+    if status0_for(sched) is not None:
+        return 'own'
+    return 'none' if (sum(int(k) for k in sched) // 2) % 2 else 'foreign'
+
+
+def run_schedule(prog, schedule, max_cb=60, status0=None, plan=None, loop_mode=None):
+    r = Run(prog, status0=status0, plan=plan, loop_mode=loop_mode)
     last = max(schedule.keys(), default=-1)
     n = 0
     while n < max_cb:
@@ -747,7 +757,7 @@ def _work(args):
     prog, sched, monitors = args[:3]
     plan = args[3] if len(args) > 3 else None
     import harness.pm_monitors  # noqa: F401  (registers the monitors)
-    r = run_schedule(prog, sched, status0=status0_for(sched), plan=plan)
+    r = run_schedule(prog, sched, status0=status0_for(sched), plan=plan, loop_mode=loop_mode_for(sched))
     fails = []
     for m in monitors:
         fails.extend(MONITORS[m](r))
